@@ -343,3 +343,10 @@ m("c08-slaves-sorted-reverse", "C08", "O8.5", (C + "switch.py", "self._slaves = 
 m("c14-result-unfiltered", "C14", "O14.4", (G + "core/config.py", "        for plugin_name in toposort_flatten(dependencies, sort=False)\n        if plugin_name in plugins\n", "        for plugin_name in toposort_flatten(dependencies, sort=False)\n"))
 m("c03-flush-skips-flavours", "C03", "O3.1", (R + "meta_runner.py", "        for flavour, queue in self._runner_queues.items():\n            self.register_payload(*queue, flavour=flavour)", "        for flavour, queue in self._runner_queues.items():\n            if flavour not in self._runners:\n                continue\n            self.register_payload(*queue, flavour=flavour)"))
 m("c03-queue-overwritten", "C03", "O3.1", (R + "meta_runner.py", "self._runner_queues.setdefault(flavour, []).extend(payloads)", "self._runner_queues[flavour] = list(payloads)"))
+
+m("c12-aclose-no-wake", "C12", "O12.6", (R + "thread_runner.py", "        if not self._payload_failure.done():\n            self._payload_failure.set_result(None)", "        pass"))
+m("c02-aclose-no-wake", "C02", "O2.7", (R + "thread_runner.py", "        if not self._payload_failure.done():\n            self._payload_failure.set_result(None)", "        pass"))
+m("c09-not-a-service", "C09", "O9.0", (D + "buffer.py", "@service(flavour=trio)\n", ""))
+m("c09-flavour-mismatch", "C09", "O9.0", (C + "linear.py", "@service(flavour=trio)", "@service(flavour=asyncio)"), (C + "linear.py", "import trio\n", "import trio\nimport asyncio\n"))
+m("c17-add-time-bool", "C17", "O17.7", (M + "format_json.py", "self._add_time = self.datefmt or self.datefmt is None", "self._add_time = bool(self.datefmt)"))
+m("c17-whitelist-mapping-only", "C17", "O17.5", (M + "format_line.py", "self._tags_whitelist = set(tags) if tags is not None else set()", "self._tags_whitelist = set(tags) if isinstance(tags, Mapping) else set()"))
